@@ -52,6 +52,21 @@ type VIfaces struct {
 	B, O, L    Term // arrays
 }
 type VNil struct{}
+
+// VOpaque stands for a value of a type that is not modelled (float64, ...).
+type VOpaque struct{}
+
+// VSubmatch is the result of (*regexp.Regexp).FindStringSubmatch on a table regexp.
+type VSubmatch struct {
+	Var string // regexp variable
+	In  Term   // input as BSeq
+	Hit Term   // Bool: the regexp matches
+	N   int    // 1 + number of groups
+}
+type VSubElem struct {
+	Sub VSubmatch
+	Idx int
+}
 type VFuncRef struct{ Key string }
 
 // VRef is a pointer into the modelled heap.
@@ -134,6 +149,9 @@ func valEqualSyntactic(a, b Val) bool {
 		return ok && x.T == y.T
 	case VNil:
 		_, ok := b.(VNil)
+		return ok
+	case VOpaque:
+		_, ok := b.(VOpaque)
 		return ok
 	case VFuncRef:
 		y, ok := b.(VFuncRef)
